@@ -14,6 +14,7 @@
    entries) never contained it; the model never writes the secret anywhere but the header (by inspection of
    enc_entry / node / page codecs); tools/c12.py searches the raw bytes of all four files for every 16-byte
    window of the key and enumerates all crash points inside make_read_only. *)
+From HC Require Import KeyIndep KeyIndepHist KeyIndepEx.
 From HC Require Import SoundCoreLib SoundCore ReplicaDisk1 ReplicaMiscB.
 From HC Require Import ClearRefine Unified1 CrashClear1 ReadOnlyClear.
 From HC Require Import Base NMap Codec Crypto FlatTree Storage Bitfield Oplog Merkle Core CoreFacts.
@@ -540,6 +541,90 @@ Theorem C12_replica_make_read_only_crash_recovers :
                   core_append cr f batch c2 w = (c2, w, Err NotWritable)))).
 Proof. exact replica_make_read_only_crash_recovers. Qed.
 
+Theorem C12_other_files_independent_of_secret :
+  forall cr : crypto,
+         (forall sk sk' m : bytes, Datatypes.length (cr_sign cr sk m) = Datatypes.length (cr_sign cr sk' m)) ->
+         forall (ops : list hop) (k1 k2 : keypair),
+         kp_sim k1 k2 ->
+         match start cr k1 with
+         | Some (c1, w1) =>
+             match start cr k2 with
+             | Some (c2, w2) =>
+                 reopen_ok cr ops c1 w1 c2 w2 ->
+                 let r1 := hrun cr ops c1 w1 in
+                 let r2 := hrun cr ops c2 w2 in
+                 d_tree (w_disk (snd r1)) = d_tree (w_disk (snd r2)) /\
+                 d_bitfield (w_disk (snd r1)) = d_bitfield (w_disk (snd r2)) /\
+                 d_data (w_disk (snd r1)) = d_data (w_disk (snd r2)) /\
+                 f_len (d_oplog (w_disk (snd r1))) = f_len (d_oplog (w_disk (snd r2))) /\
+                 fst (fst r1) = fst (fst r2) /\
+                 w_events (snd r1) = w_events (snd r2) /\
+                 Forall2 sop_sim (w_journal (snd r1)) (w_journal (snd r2)) /\
+                 filter not_oplog (w_journal (snd r1)) = filter not_oplog (w_journal (snd r2))
+             | None => False
+             end
+         | None => match start cr k2 with
+                   | Some _ => False
+                   | None => True
+                   end
+         end.
+Proof. exact other_files_independent_of_secret. Qed.
+
+Theorem C12_other_files_independent_of_secret_no_reopen :
+  forall cr : crypto,
+         (forall sk sk' m : bytes, Datatypes.length (cr_sign cr sk m) = Datatypes.length (cr_sign cr sk' m)) ->
+         forall (ops : list hop) (k1 k2 : keypair),
+         kp_sim k1 k2 ->
+         no_reopen ops = true ->
+         match start cr k1 with
+         | Some (c1, w1) =>
+             match start cr k2 with
+             | Some (c2, w2) =>
+                 let r1 := hrun cr ops c1 w1 in
+                 let r2 := hrun cr ops c2 w2 in
+                 d_tree (w_disk (snd r1)) = d_tree (w_disk (snd r2)) /\
+                 d_bitfield (w_disk (snd r1)) = d_bitfield (w_disk (snd r2)) /\
+                 d_data (w_disk (snd r1)) = d_data (w_disk (snd r2)) /\
+                 f_len (d_oplog (w_disk (snd r1))) = f_len (d_oplog (w_disk (snd r2))) /\
+                 fst (fst r1) = fst (fst r2) /\
+                 filter not_oplog (w_journal (snd r1)) = filter not_oplog (w_journal (snd r2))
+             | None => False
+             end
+         | None => match start cr k2 with
+                   | Some _ => False
+                   | None => True
+                   end
+         end.
+Proof. exact other_files_independent_of_secret_no_reopen. Qed.
+
+Theorem C12_key_independence_of_histories :
+  forall cr : crypto,
+         (forall sk sk' m : bytes, Datatypes.length (cr_sign cr sk m) = Datatypes.length (cr_sign cr sk' m)) ->
+         forall (ops : list hop) (c1 : core) (w1 : world) (c2 : core) (w2 : world),
+         sim c1 c2 ->
+         w_sim w1 w2 -> reopen_ok cr ops c1 w1 c2 w2 -> run_sim (hrun cr ops c1 w1) (hrun cr ops c2 w2).
+Proof. exact history_sim. Qed.
+
+Theorem C12_key_independence_example :
+  match start kx_cr kpA with
+         | Some (c1, w1) =>
+             match start kx_cr kpB with
+             | Some (c2, w2) =>
+                 let r1 := hrun kx_cr kx_hist c1 w1 in
+                 let r2 := hrun kx_cr kx_hist c2 w2 in
+                 d_tree (w_disk (snd r1)) = d_tree (w_disk (snd r2)) /\
+                 d_bitfield (w_disk (snd r1)) = d_bitfield (w_disk (snd r2)) /\
+                 d_data (w_disk (snd r1)) = d_data (w_disk (snd r2)) /\ fst (fst r1) = fst (fst r2)
+             | None => False
+             end
+         | None => False
+         end.
+Proof. exact kx_main. Qed.
+
+Theorem C12_key_independence_example_stores :
+  kx_check = true.
+Proof. exact kx_same_stores_different_oplogs. Qed.
+
 Print Assumptions C12_not_writable.
 Print Assumptions C12_call_reports_writability.
 Print Assumptions C12_secret_erased_in_every_case.
@@ -574,3 +659,8 @@ Print Assumptions C12_replica_make_read_only_observations.
 Print Assumptions C12_replica_append_refused.
 Print Assumptions C12_replica_read_only_reopen.
 Print Assumptions C12_replica_make_read_only_crash_recovers.
+Print Assumptions C12_other_files_independent_of_secret.
+Print Assumptions C12_other_files_independent_of_secret_no_reopen.
+Print Assumptions C12_key_independence_of_histories.
+Print Assumptions C12_key_independence_example.
+Print Assumptions C12_key_independence_example_stores.
